@@ -1257,6 +1257,32 @@ example : daoWithdraw [7, 9] id (fun n => 10000000000000000 + n * 1000000000000)
       = .error .invalidOutPoint := by
   decide
 
+/-- **dao_withdraw_loader.** with every header found by the data loader the loader-explicit function
+is `daoWithdraw` -/
+theorem dao_withdraw_loader (known : Nat → Bool) (hk : ∀ h, known h = true) (hds : List Nat)
+    (number ar : Nat → Nat) (info : Option Nat) (w : DaoWitness) (cap : Nat) (occ : Option Nat) :
+    daoWithdrawL known hds number ar info w cap occ = daoWithdraw hds number ar info w cap occ := by
+  unfold daoWithdrawL daoWithdraw
+  cases h : daoHeaders hds info w with
+  | error e => rfl
+  | ok p => obtain ⟨dh, wh⟩ := p; simp [hk]
+
+/-- **dao_withdraw_missing_header.** when the look-ups succeed on the transaction but the data
+loader lacks the deposit or the withdrawing header, the result is `InvalidHeader` — whatever the
+numbers, rates and capacities are -/
+theorem dao_withdraw_missing_header (known : Nat → Bool) (hds : List Nat) (number ar : Nat → Nat)
+    (info : Option Nat) (w : DaoWitness) (cap : Nat) (occ : Option Nat) (dh wh : Nat)
+    (h : daoHeaders hds info w = .ok (dh, wh)) (hm : known dh = false ∨ known wh = false) :
+    daoWithdrawL known hds number ar info w cap occ = .error .invalidHeader := by
+  unfold daoWithdrawL
+  rw [h]
+  rcases hm with hm | hm
+  · simp [hm]
+  · cases hd : known dh <;> simp [hd, hm]
+
+example : daoWithdrawL (fun h => h != 7) [7, 9] id (fun n => 10000000000000000 + n * 1000000000000) (some 9) (.index 0)
+    18200000000 (some 8200000000) = .error .invalidHeader := by rfl
+
 /-! ### Tx-pool admission -/
 
 /-- **fee_rate_fee_bounds.** `FeeRate::fee` never asks for more than rate · weight / 1000, and inside
